@@ -650,9 +650,10 @@ class Interp:
     def call_repo(self, qual, fnode, args, kwargs, node, bound=False):
         """call of a function / method defined in the repository: contract if there is one, inline if allowed."""
         c = self.contracts.get(qual)
-        if c is not None and qual != self.self_qual and not c.inline_only:
+        inline_all = getattr(self.ctx.run, "inline_all", False)
+        if c is not None and qual != self.self_qual and not c.inline_only and not inline_all:
             return self.ctx.call_contract(self, c, fnode, args, kwargs, node)
-        if qual in self.inline or (c is not None and c.inline_only) or self.module.is_trivial(fnode):
+        if qual in self.inline or (c is not None and (c.inline_only or inline_all)) or self.module.is_trivial(fnode):
             mod = self.module.module_of(qual)
             saved = self.module
             self.module = mod
